@@ -188,8 +188,11 @@ class SliceSpec:
 
 
 def norm_index(i, n):
-    """python negative index wrap; returns (index, in_bounds_condition)"""
+    """python negative index wrap; returns (index, in_bounds_condition).
+    In specification clauses indices are taken as they are (no wrap): clauses only use 0 <= i < n."""
     i = _num(i)
+    if V.SPEC_MODE and is_sym(i):
+        return i, b_and(i >= 0, i < n)
     if not is_sym(i) and not is_sym(n):
         j = i + n if i < 0 else i
         return j, (0 <= j < n)
@@ -491,6 +494,18 @@ def compare(interp, st, op, l, r, node=None):
             return False
         if t is ast.NotEq:
             return True
+    if isinstance(l, RowsShape) or isinstance(r, RowsShape):
+        sh, other = (l, r) if isinstance(l, RowsShape) else (r, l)
+        if not isinstance(other, tuple) or t not in (ast.Eq, ast.NotEq):
+            raise Outside("comparison of rows-array shape", node)
+        n = rows_len(interp, st, sh.rows, node)
+        if len(other) == 2:
+            res = b_and(s_cmp(ast.Gt(), n, 0), s_cmp(ast.Eq(), other[0], n), s_cmp(ast.Eq(), other[1], sh.rows.width))
+        elif len(other) == 1:
+            res = b_and(s_cmp(ast.Eq(), n, 0), s_cmp(ast.Eq(), other[0], 0))
+        else:
+            res = False
+        return res if t is ast.Eq else b_not(res)
     if isinstance(l, I.ClassRef) and isinstance(r, I.ClassRef):
         if t is ast.Eq:
             return l.name == r.name
@@ -551,6 +566,8 @@ def dict_eq(l, r):
 
 
 def contains(interp, st, container, item, node=None):
+    if isinstance(container, EmptySet):
+        return False
     if isinstance(container, CSet):
         key = as_key(item, node)
         return container.contains(key)
@@ -569,6 +586,8 @@ def contains(interp, st, container, item, node=None):
         k = z3.Int(V.fresh_name("k"))
         eq = compare_eq_any(interp, st, item, container.get(k), node)
         return z3.Exists([k], z3.And(k >= 0, k < container.length, to_z3(eq)))
+    if isinstance(container, Rows):
+        return contains(interp, st, container.src, item, node)
     if isinstance(container, str) and isinstance(item, str):
         return item in container
     if hasattr(interp.lib, "tok_contains"):
